@@ -751,6 +751,11 @@ impl<'a, 'tcx> Cx<'a, 'tcx> {
                             f.push(("str", J::s(s)));
                             done = true;
                         }
+                        // `&Enum::Variant` (a field-less variant): the variant name
+                        if let Some((adt, v)) = self.promoted_variant(uv.def, p) {
+                            f.push(("enum", J::s(adt)));
+                            f.push(("variant", J::s(v)));
+                        }
                     } else {
                         f.push(("item", J::s(def_path(self.tcx, uv.def))));
                     }
@@ -766,6 +771,33 @@ impl<'a, 'tcx> Cx<'a, 'tcx> {
             }
         }
         J::obj(vec![("k", J::obj(f))])
+    }
+
+    fn promoted_variant(&self, def: DefId, p: mir::Promoted) -> Option<(String, String)> {
+        let ld = def.as_local()?;
+        let proms = self.tcx.promoted_mir(ld.to_def_id());
+        let b = proms.get(p)?;
+        let mut found: Vec<(String, String)> = Vec::new();
+        for bb in b.basic_blocks.iter() {
+            for st in &bb.statements {
+                if let StatementKind::Assign(bx) = &st.kind {
+                    let (_, rv) = &**bx;
+                    if let Rvalue::Aggregate(kind, ops) = rv {
+                        if let mir::AggregateKind::Adt(did, vidx, _, _, _) = &**kind {
+                            let def = self.tcx.adt_def(*did);
+                            if def.is_enum() && ops.is_empty() {
+                                found.push((def_path(self.tcx, *did), def.variant(*vidx).name.to_string()));
+                            }
+                        }
+                    }
+                }
+            }
+        }
+        if found.len() == 1 {
+            found.pop()
+        } else {
+            None
+        }
     }
 
     fn promoted_str(&self, def: DefId, p: mir::Promoted) -> Option<String> {
